@@ -22,7 +22,11 @@
     (counterexamples given); what is proved is fuel-independence under the ghost condition
     `okRec` ("no call of the call tree ran with fuel 0"): `C08_fuel_monotone`,
     `C08_fuel_independent`, `C08_fuel_ok_no_outOfFuel`, and the iteration bound of the candidate
-    loop `C08_loop_iteration_bound`.
+    loop `C08_loop_iteration_bound`; and, under explicit size bounds (at most `H` name-server
+    hosts per delegation, names of at most `L` labels, in zones, cache and upstream replies), the
+    closed statement that `FUEL_BOUND H L = 32·((L+1)(2H+2)+3)+1` units of fuel suffice
+    (`C08_fuel_suffices_bounded`), hence that the fuel given by `resolve` suffices whenever
+    `FUEL_BOUND H L ≤ REC_FUEL` (`C08_resolve_fuel_suffices`; numeric instances at the end).
 -/
 import Resolved.Model.Resolver
 import Resolved.Proofs.ResolverMachineInv
@@ -30,6 +34,7 @@ import Resolved.Proofs.ResolverMachineSrc
 import Resolved.Proofs.ResolverMachineFuel
 import Resolved.Proofs.ResolverMachineLoop
 import Resolved.Proofs.ResolverMachineExample
+import Resolved.Proofs.ResolverFuelBound
 
 namespace Resolved
 
@@ -264,7 +269,7 @@ example : FromLog exCfg.oracle (resolveRecursive exCfg exCtx exQ).1.run.log exAn
 
 /-! ## Fuel
 
-  The Rust recursion is unbounded; the model recurses on a fuel (`REC_FUEL = 100000` in the
+  The Rust recursion is unbounded; the model recurses on a fuel (`REC_FUEL = 1000000` in the
   wrappers) and returns the model-only error `outOfFuel` at fuel 0.  Two facts about the model as
   it stands (both model artefacts, not Rust behaviour):
 
@@ -276,8 +281,8 @@ example : FromLog exCfg.oracle (resolveRecursive exCfg exCtx exQ).1.run.log exAn
   2. Every iteration of the candidate loop costs one unit of fuel while virtual time need not
      advance (an oracle may answer in 0 ms), and the number of iterations grows with
      (labels of the question) × (name servers per referral): `outOfFuel` IS reachable with
-     `REC_FUEL` (e.g. a 101-label question, 100 referrals of 1000 hosts each with glue for the
-     host tried last; `bigCfg 100 1000` — scaled-down instance proved below).
+     `REC_FUEL` (e.g. a 1001-label question, 1000 referrals of 1000 hosts each with glue for the
+     host tried last; `bigCfg 1000 1000` — scaled-down instance proved below).
 
   What holds: the ghost condition `okRec cfg n st q` (defined in `Proofs/ResolverMachineFuel` by
   mirroring the call tree: no call was made with fuel 0; it is executable, so it can be evaluated
@@ -291,7 +296,7 @@ example : (resolveRec exCfgRef 5 ⟨exCtx, Run.empty⟩ exQ).2 = .error (.deadEn
   decide +kernel
 
 /-- Scaled-down instance of the fuel-exhaustion scenario: 3 referral levels × 4 hosts; fuel 14 is
-    exhausted (`outOfFuel`), fuel 16 answers.  The same universe with 100 levels × 1000 hosts
+    exhausted (`outOfFuel`), fuel 16 answers.  The same universe with 1000 levels × 1000 hosts
     exhausts `REC_FUEL`. -/
 example : (resolveRec (bigCfg 3 4) 14 ⟨bigCtx, Run.empty⟩ (bigQ 3)).2 = .error .outOfFuel ∧
     okRec (bigCfg 3 4) 16 ⟨bigCtx, Run.empty⟩ (bigQ 3) = true := by
@@ -372,7 +377,8 @@ theorem C08_loop_fuel_suffices (cfg : RecCfg) (q : Question) (combined : List RR
 example : ∀ hs : List Name, (({ exCfg with hostOrder := fun l => l.take 13 } : RecCfg).hostOrder hs).length ≤ 13 := by
   intro hs; simp only [List.length_take]; omega
 
-/-! What is missing for a conditional "fuel suffices" theorem (`okRec cfg F ⟨ctx, Run.empty⟩ q` for
+/-! (Superseded by the next section, which proves the theorem sketched here; kept for the record.)
+    What is missing for a conditional "fuel suffices" theorem (`okRec cfg F ⟨ctx, Run.empty⟩ q` for
     an explicit `F`): nesting of `resolveRec` is bounded by the question stack (every nested call
     sees a strictly longer stack — `C10_stack_invariant` — and refuses at `RECURSION_LIMIT`), and
     each level costs at most the loop bound `C08_loop_iteration_bound` plus a constant, so
@@ -381,8 +387,200 @@ example : ∀ hs : List Name, (({ exCfg with hostOrder := fun l => l.take 13 } :
     at most `H` hosts.  Those are global size invariants on zones, cache contents and oracle
     replies (names ≤ 255 octets, messages ≤ 64 KiB) that the model does not carry (`Name`,
     `Message` are unconstrained structures there); and with realistic sizes (L ≈ 128, H ≈ 4000)
-    that `F` is far above `REC_FUEL = 100000`, so the wrapper's fuel would have to be raised (or
+    that `F` is far above the `REC_FUEL = 100000` of that time, so the wrapper's fuel would have to be raised (or
     the loop given its own structural measure) before such a theorem could be about
     `resolveRecursive` itself. -/
+
+/-! ## Fuel sufficiency under explicit size bounds
+
+  The conditional theorem described just above, proved (`Proofs/ResolverFuelBound`).  The fuel is a
+  nesting-depth budget; the depth is at most
+
+      FUEL_BOUND H L = RECURSION_LIMIT · ((L + 1)·(2H + 2) + 3) + 1
+
+  when every delegation (local, cached or referred) offers at most `H` name-server hosts and every
+  question name has at most `L` labels: `RECURSION_LIMIT` levels of the question stack do work (a
+  nested `resolveRec` sees a stack one longer, and refuses at the limit: the `+ 1`), and one level
+  costs at most the loop bound `L·(2H+2) + (2H+1)` (`C08_loop_iteration_bound`, initial width
+  `2H + 1`) plus 1 frame of `resolveRec` and at most 3 frames of `tryTypes` (|rtypes| ≤ 2, plus the
+  frame that sees the exhausted list) — or 1 of `resolveCombined` — before the next level starts.
+
+  Two forms.  `C08_fuel_suffices_of_local_bounds` takes the bound on local lookups as a hypothesis
+  over the states the machine can reach (`Reach`); `C08_fuel_suffices_bounded` derives it from
+  conditions on the initial zones, the initial cache and the oracle:
+  * `fb_zonesOK H L zones` (a Bool, checkable by evaluation): record maps keyed consistently, RDATA
+    names of ≤ `L` labels, NS sets of ≤ `H` records, in every node of every zone;
+  * `fb_CacheOK L U cache`: the cache is well-formed (`Inv`, C05), RDATA names of ≤ `L` labels, and
+    the NS data stored under owner `k` lie in `U k`;
+  * `fb_OracleOK L U oracle`: in every reply, RDATA names of ≤ `L` labels and NS data of owner `k`
+    in `U k` — with `(U k).length ≤ H`: per owner name there are at most `H` distinct NS data in the
+    world (initial cache and all replies together).  A per-reply bound would NOT do: the cache
+    merges the NS sets that different replies give for one owner, and `candidate_nameservers`
+    takes the merged set without passing it through `hostOrder`.
+  The host order must return hosts of the referral (`hsub`), at most `H` of them (`hH`; needed only
+  of host sets of actual referrals: `C08_fuel_suffices_bounded_referrals`). -/
+
+/-- fuel that suffices when delegations have ≤ `H` hosts and question names ≤ `L` labels. -/
+def FUEL_BOUND (H L : Nat) : Nat := RECURSION_LIMIT * ((L + 1) * (2 * H + 2) + 3) + 1
+
+theorem C08_FUEL_BOUND_eq (H L : Nat) : FUEL_BOUND H L = 32 * ((L + 1) * (2 * H + 2) + 3) + 1 := rfl
+
+/-- the bound grows with both parameters (so "the largest `H` that fits" below makes sense). -/
+theorem C08_FUEL_BOUND_mono {H H' L L' : Nat} (hH : H ≤ H') (hL : L ≤ L') : FUEL_BOUND H L ≤ FUEL_BOUND H' L' := by
+  unfold FUEL_BOUND
+  have h1 : (L + 1) * (2 * H + 2) ≤ (L' + 1) * (2 * H' + 2) := Nat.mul_le_mul (by omega) (by omega)
+  have h2 := Nat.mul_le_mul_left RECURSION_LIMIT (Nat.add_le_add_right h1 3)
+  omega
+
+/-- Fuel sufficiency, semantic form: if, on every state reachable from `st0`, local lookups hand
+    back at most `H` hosts and only NS / alias targets of at most `L` labels (`fb_LocalBounded`),
+    upstream replies only carry NS / CNAME targets of at most `L` labels, and the host order tries
+    at most `H` hosts of a referral, then on any reachable state with its question stack within
+    the limit `FUEL_BOUND H L` units of fuel suffice. -/
+theorem C08_fuel_suffices_of_local_bounds (cfg : RecCfg) (H L : Nat) (st0 st : St) (q : Question) (n : Nat)
+    (hH : ∀ hs, (cfg.hostOrder hs).length ≤ H)
+    (hsub : ∀ hs h, h ∈ cfg.hostOrder hs → h ∈ hs)
+    (hO : fb_OracleNames cfg.oracle L)
+    (hloc : ∀ st', Reach cfg.net st0 st' → ∀ q',
+      fb_LocalBounded H L q' (resolveLocal (RECURSION_LIMIT + 1) st'.ctx q').2)
+    (hr : Reach cfg.net st0 st) (hstack : st.ctx.stack.length ≤ RECURSION_LIMIT)
+    (hq : q.name.labels.length ≤ L) (hfuel : FUEL_BOUND H L ≤ n) :
+    okRec cfg n st q = true :=
+  fb_okRec ⟨fun hs _ => hH hs, hsub, hO, hloc⟩ st q n hr hstack hq hfuel
+
+/-- Fuel sufficiency from conditions on the initial data, the host-order bound being asked only of
+    the host sets of referrals the oracle can actually produce (`fb_Referral`). -/
+theorem C08_fuel_suffices_bounded_referrals (cfg : RecCfg) (H L : Nat) (U : Name → List CRec) (st : St)
+    (q : Question) (n : Nat)
+    (hH : ∀ hs, fb_Referral cfg.oracle hs → (cfg.hostOrder hs).length ≤ H)
+    (hsub : ∀ hs h, h ∈ cfg.hostOrder hs → h ∈ hs)
+    (hU : ∀ k, (U k).length ≤ H)
+    (hZ : fb_zonesOK H L st.ctx.zones = true)
+    (hC : fb_CacheOK L U st.ctx.cache)
+    (hO : fb_OracleOK L U cfg.oracle)
+    (hstack : st.ctx.stack.length ≤ RECURSION_LIMIT)
+    (hq : q.name.labels.length ≤ L) (hfuel : FUEL_BOUND H L ≤ n) :
+    okRec cfg n st q = true :=
+  fb_okRec_of_invariant st q n hH hsub hU hO ⟨hZ, hC⟩ hstack hq hfuel
+
+/-- **Fuel sufficiency.**  At most `H` hosts tried per referral, all of them hosts of the referral;
+    per owner name at most `H` distinct NS data in the initial cache and all upstream replies
+    together (`U`); NS sets of at most `H` records in the zones; RDATA names of at most `L` labels
+    in zones, cache and replies; a question name of at most `L` labels; the question stack within
+    the recursion limit.  Then with `FUEL_BOUND H L` units of fuel or more no call in the call tree
+    of `resolveRec` is made with fuel 0. -/
+theorem C08_fuel_suffices_bounded (cfg : RecCfg) (H L : Nat) (U : Name → List CRec) (st : St) (q : Question)
+    (n : Nat)
+    (hH : ∀ hs, (cfg.hostOrder hs).length ≤ H)
+    (hsub : ∀ hs h, h ∈ cfg.hostOrder hs → h ∈ hs)
+    (hU : ∀ k, (U k).length ≤ H)
+    (hZ : fb_zonesOK H L st.ctx.zones = true)
+    (hC : fb_CacheOK L U st.ctx.cache)
+    (hO : fb_OracleOK L U cfg.oracle)
+    (hstack : st.ctx.stack.length ≤ RECURSION_LIMIT)
+    (hq : q.name.labels.length ≤ L) (hfuel : FUEL_BOUND H L ≤ n) :
+    okRec cfg n st q = true :=
+  C08_fuel_suffices_bounded_referrals cfg H L U st q n (fun hs _ => hH hs) hsub hU hZ hC hO hstack hq hfuel
+
+/-- Above the bound the fuel is unobservable: every fuel `n ≥ FUEL_BOUND H L` gives the state and
+    result of `FUEL_BOUND H L`, and that result is not `outOfFuel`. -/
+theorem C08_fuel_unobservable_above_bound (cfg : RecCfg) (H L : Nat) (U : Name → List CRec) (st : St)
+    (q : Question) (n : Nat)
+    (hH : ∀ hs, (cfg.hostOrder hs).length ≤ H)
+    (hsub : ∀ hs h, h ∈ cfg.hostOrder hs → h ∈ hs)
+    (hU : ∀ k, (U k).length ≤ H)
+    (hZ : fb_zonesOK H L st.ctx.zones = true)
+    (hC : fb_CacheOK L U st.ctx.cache)
+    (hO : fb_OracleOK L U cfg.oracle)
+    (hstack : st.ctx.stack.length ≤ RECURSION_LIMIT)
+    (hq : q.name.labels.length ≤ L) (hfuel : FUEL_BOUND H L ≤ n) :
+    resolveRec cfg n st q = resolveRec cfg (FUEL_BOUND H L) st q ∧
+    (resolveRec cfg n st q).2 ≠ .error .outOfFuel := by
+  have hok := C08_fuel_suffices_bounded cfg H L U st q (FUEL_BOUND H L) hH hsub hU hZ hC hO hstack hq
+    (Nat.le_refl _)
+  have hm := C08_fuel_monotone cfg (FUEL_BOUND H L) n hfuel st q hok
+  exact ⟨hm.1, C08_fuel_ok_no_outOfFuel cfg n st q hm.2⟩
+
+/-- **The fuel given by `resolve` suffices** whenever `FUEL_BOUND H L ≤ REC_FUEL`: under the
+    hypotheses of `C08_fuel_suffices_bounded` on the context and the configuration, the value of
+    `resolveRecursive` is not `outOfFuel`, no call of its call tree ran out of fuel, and every
+    larger fuel gives the same state and result — the fuel of the model is unobservable. -/
+theorem C08_resolve_fuel_suffices (cfg : RecCfg) (H L : Nat) (U : Name → List CRec) (ctx : Ctx) (q : Question)
+    (hH : ∀ hs, (cfg.hostOrder hs).length ≤ H)
+    (hsub : ∀ hs h, h ∈ cfg.hostOrder hs → h ∈ hs)
+    (hU : ∀ k, (U k).length ≤ H)
+    (hZ : fb_zonesOK H L ctx.zones = true)
+    (hC : fb_CacheOK L U ctx.cache)
+    (hO : fb_OracleOK L U cfg.oracle)
+    (hstack : ctx.stack.length ≤ RECURSION_LIMIT)
+    (hq : q.name.labels.length ≤ L) (hfit : FUEL_BOUND H L ≤ REC_FUEL) :
+    (resolveRecursive cfg ctx q).2 ≠ .error .outOfFuel ∧
+    okRec cfg REC_FUEL ⟨ctx, Run.empty⟩ q = true ∧
+    ∀ m, REC_FUEL ≤ m → resolveRec cfg m ⟨ctx, Run.empty⟩ q = resolveRec cfg REC_FUEL ⟨ctx, Run.empty⟩ q := by
+  have hok := C08_fuel_suffices_bounded cfg H L U ⟨ctx, Run.empty⟩ q REC_FUEL hH hsub hU hZ hC hO hstack hq hfit
+  obtain ⟨h1, h2⟩ := C08_fuel_independent cfg ctx q hok
+  exact ⟨h2, hok, h1⟩
+
+/-! ### Numeric instances (a wire-format name has at most 127 labels + the root: `L = 128`) -/
+
+/-- `REC_FUEL = 1 000 000` (raised from 100 000 once this bound was known: 13 hosts per delegation —
+    the root servers — need 115 681) covers 13 hosts per delegation … -/
+theorem C08_fuel_bound_13_128 : FUEL_BOUND 13 128 = 115681 ∧ FUEL_BOUND 13 128 ≤ REC_FUEL := by decide
+
+/-- … and 64; for `L = 128` the largest `H` covered by `REC_FUEL = 1 000 000` is 120. -/
+theorem C08_fuel_bound_64_128 : FUEL_BOUND 64 128 = 536737 ∧ FUEL_BOUND 64 128 ≤ REC_FUEL := by decide
+
+theorem C08_fuel_bound_largest_H : FUEL_BOUND 120 128 ≤ REC_FUEL ∧ ¬ FUEL_BOUND 121 128 ≤ REC_FUEL := by decide
+
+/-! ### Non-vacuity: the example universe satisfies the hypotheses -/
+
+/-- the example configuration with a host order that keeps at most 11 hosts, the example context
+    and question satisfy every hypothesis of `C08_resolve_fuel_suffices` for `H = 11`, `L = 128`
+    (empty NS universe: the example upstream never sends an NS record) — so its conclusion holds. -/
+example :
+    let cfg : RecCfg := { exCfg with hostOrder := fun l => l.take 11 }
+    (resolveRecursive cfg exCtx exQ).2 ≠ .error .outOfFuel ∧
+    okRec cfg REC_FUEL ⟨exCtx, Run.empty⟩ exQ = true ∧
+    ∀ m, REC_FUEL ≤ m → resolveRec cfg m ⟨exCtx, Run.empty⟩ exQ = resolveRec cfg REC_FUEL ⟨exCtx, Run.empty⟩ exQ := by
+  intro cfg
+  refine C08_resolve_fuel_suffices cfg 11 128 (fun _ => []) exCtx exQ ?_ ?_ ?_ ?_ ?_ ?_ ?_ ?_ ?_
+  · intro hs; simp only [cfg, List.length_take]; omega
+  · intro hs h hm; exact List.mem_of_mem_take hm
+  · intro k; simp
+  · decide +kernel
+  · exact fb_cacheOK_new _ _ _
+  · exact fb_exOracle_ok _ _
+  · decide
+  · decide
+  · decide
+
+/-- the unmodified example configuration (`hostOrder := id`) satisfies the hypotheses of
+    `C08_fuel_suffices_bounded_referrals` (its upstream never sends a referral), even for `H = 1`,
+    `L = 2`. -/
+example : okRec exCfg (FUEL_BOUND 1 2) ⟨exCtx, Run.empty⟩ exQ = true :=
+  C08_fuel_suffices_bounded_referrals exCfg 1 2 (fun _ => []) ⟨exCtx, Run.empty⟩ exQ _
+    (fun hs h => absurd h (fb_exOracle_no_referral hs)) (fun _ _ h => h) (fun _ => by simp)
+    (by decide +kernel) (fb_cacheOK_new _ _ _) (fb_exOracle_ok _ _) (by decide) (by decide) (Nat.le_refl _)
+
+/-! ### The bounds are needed (scaled-down instances, as for `bigCfg` above)
+
+  In the `bigCfg levels hosts` universe (a chain of `levels` referrals with `hosts` name servers
+  each, question name of `levels + 2` labels, all replies at zero virtual time) the least fuel for
+  which `okRec` holds was `levels · hosts + 3` in every instance evaluated: it grows with the number
+  of hosts per referral at a fixed name length, and with the name length at a fixed number of hosts.  So neither
+  the bound `H` on hosts per delegation nor the bound `L` on labels can be dropped, whatever fuel the
+  wrapper is given (evaluated: 623 for `bigCfg 1 620`, where `FUEL_BOUND 1 3 = 609`; kernel
+  evaluation of that instance is too slow to be stored as a theorem — the instances below are). -/
+
+/-- more hosts per referral, same names: more fuel needed. -/
+example : okRec (bigCfg 1 4) 7 ⟨bigCtx, Run.empty⟩ (bigQ 1) = true ∧
+    okRec (bigCfg 1 8) 7 ⟨bigCtx, Run.empty⟩ (bigQ 1) = false ∧
+    okRec (bigCfg 1 8) 11 ⟨bigCtx, Run.empty⟩ (bigQ 1) = true ∧
+    okRec (bigCfg 1 16) 11 ⟨bigCtx, Run.empty⟩ (bigQ 1) = false := by decide +kernel
+
+/-- longer names (more referral levels), same number of hosts: more fuel needed. -/
+example : okRec (bigCfg 2 4) 7 ⟨bigCtx, Run.empty⟩ (bigQ 2) = false ∧
+    okRec (bigCfg 2 4) 11 ⟨bigCtx, Run.empty⟩ (bigQ 2) = true ∧
+    okRec (bigCfg 3 4) 11 ⟨bigCtx, Run.empty⟩ (bigQ 3) = false := by decide +kernel
 
 end Resolved
